@@ -8,7 +8,7 @@
    mirrors generate.go/bind.go computes exactly that, for every chain, behaviour and session. *)
 From Coq Require Import List Arith Bool.
 Import ListNotations.
-From NJ Require Import Base Registry Classify Select Reorder Machine Spec Bind Refine Chain SpecLemmas.
+From NJ Require Import Base Registry Classify Select Reorder Machine Spec Bind Refine Chain SpecLemmas CoverProofs.
 
 (* Whole chains: for every case that binds (plan passing the decidable well-formedness check that
    the correspondence run evaluates on every case), every provider behaviour (wrappers as arbitrary
@@ -49,3 +49,20 @@ Theorem C01_loose_only : forall te funcs m wanted found deps,
    forall dep, In dep deps -> flagp (fun p => memb wanted (p_loose p)) funcs dep = true).
 Proof. exact best_match_sound. Qed.
 Print Assumptions C01_loose_only.
+
+(* Never a zero value through the wiring: in every plan Bind arrives at (any chain, any annotations,
+   Reorder included), each parameter of each included provider is read from an allocated slot -
+   the slot of the type its source puts out.  No hypothesis about the plan.  (Defect D29 was a
+   failure of this statement.) *)
+Theorem C01_no_unallocated_parameter : forall c pl,
+  plan_of c = Ok pl ->
+  forall k p t, getp (pl_funcs pl) k = Some p -> p_include p = true -> In t (pflow p FIn) -> t <> te_noT (bc_te c) ->
+    exists i, sd_of (pl_slots pl) (remap (p_downR p) t) = Some i.
+Proof. intros c pl H. exact (proj1 (plan_covers c pl H)). Qed.
+Print Assumptions C01_no_unallocated_parameter.
+
+(* The slot tables of every working list are well formed: distinct keys, pairwise distinct indices
+   across the down and the up table, all below the size of the collection. *)
+Theorem C01_slot_tables_well_formed : forall funcs ii, slots_ok_b (allocate_slots funcs ii) = true.
+Proof. exact AllocProofs.allocate_slots_ok. Qed.
+Print Assumptions C01_slot_tables_well_formed.
